@@ -42,6 +42,25 @@ func scnFailoverDel(name string, k kfn, ids ...string) *Scenario {
 	return s.faultFree()
 }
 
+// S-failover-twice: A leads, B and C follow; A stops and deletes its key, B wins the
+// vacancy while C's acquisition round is left in its backoff; B stops and deletes shortly
+// afterwards and C's pending retry wins. C's 500 ms periodic check ticks in between (it
+// reads B's record); replies may arrive later than the store applied the operation.
+func scnFailoverTwice(name string, k kfn) *Scenario {
+	s := k(&Scenario{Name: name})
+	s.Insts = insts("A", "B", "C")
+	s.Script = starts("A", "B", "C")
+	s.Script = append(s.Script,
+		Item{At: 440 * ms, Actor: "stopA", Do: "stopctx", Inst: "A", DeleteKey: true, Fixed: true},
+		Item{At: 520 * ms, Actor: "stopB", Do: "stopctx", Inst: "B", DeleteKey: true, Fixed: true})
+	s.Horizon = 520*ms + 4*s.H
+	s = s.faultFree()
+	s.SplitApply = true
+	s.RandMenu = nil
+	s.DevFrom, s.DevUntil = 495*ms, 610*ms
+	return s
+}
+
 // S-restart: A starts, is stopped (variant), starts again; B present.
 func scnRestart(name string, k kfn, stop Item) *Scenario {
 	s := k(&Scenario{Name: name})
